@@ -164,6 +164,23 @@ func c10N(r *rand.Rand, lo, hi int) int { return lo + r.IntN(hi-lo+1) }
 type c10Program struct {
 	cfg *oc.RoutingPolicy
 	ap  map[string]oc.ApplyPolicy
+	// edit phase (c10_edit_test.go): statements that exist but belong to no policy, the key prefix of
+	// the edit under test ("" outside the edit phase) and the edit history that led here
+	orphans []oc.Statement
+	edit    string
+	history []string
+	failed  bool // an oracle fired on this configuration (set by key)
+}
+
+// key maps an oracle key to the edit under test: while an edit history is replayed the interesting
+// fact is which request left the configuration in a state other than the modelled one.
+func (p *c10Program) key(k string) string {
+	p.failed = true
+	if p.edit == "" || strings.HasPrefix(k, "panic:") || strings.HasPrefix(k, "c10:alias:") || strings.HasPrefix(k, "c10:harness:") {
+		return k
+	}
+	k = strings.TrimPrefix(strings.TrimPrefix(k, "c10:"), "readback:")
+	return p.edit + ":" + strings.SplitN(k, ":", 2)[0] // area only (config, api, statement, policy, assignment, defined-set, cond, action, verdict, attr); the field is in the text
 }
 
 func c10GenProgram(r *rand.Rand) *c10Program {
